@@ -4,6 +4,7 @@ CONSTANTS
  StepSizes = {1, 3}
  MaxOps = 5
  Horizon = 4
+ BadCfgs = {9}
 SPECIFICATION Spec
 INVARIANT Isolation
 INVARIANT Export
